@@ -79,9 +79,9 @@ class C12(core.Check):
     level = "model_checking"
     timeout = 400
     rule = ("all ordered pairs (P, Q) of a 19-program corpus (incl. a consumer 40 tiles away, also built with medium poles / substations) that reuse the same signal names and constants, names made "
-            "disjoint, x order-preserving interleavings of their statements (thorough tier: all of them for a pair with at most 400, "
-            "else 400 spread evenly over the lexicographic enumeration - only pairs among the 6- and 9-statement "
-            "far-entity programs exceed 400; quick tier: 6 spread over the whole set); P's outputs and entity conditions in build(P;Q) are compared with "
+            "disjoint, x order-preserving interleavings of their statements (thorough tier: all of them for a pair with at most 200, "
+            "else 200 spread evenly over the lexicographic enumeration - only pairs among the 6- and 9-statement "
+            "far-entity programs (and pairs of 5-statement ones) exceed 200; quick tier: 6 spread over the whole set); P's outputs and entity conditions in build(P;Q) are compared with "
             "build(P) for the full product of P's and Q's input values; stateful P by lock-step BFS over events on P's "
             "AND Q's inputs; non-trivial = P's outputs vary")
     assumptions = ["circuit model fv/sim.py"]
@@ -94,7 +94,7 @@ class C12(core.Check):
             for qn in MINI:
                 p = renamed(pn, "_p", 0)
                 q = renamed(qn, "_q", 4)
-                lim = 400 if tier == "thorough" else 6
+                lim = 200 if tier == "thorough" else 6
                 if tier == "quick" and MINI[pn][3].startswith("stateful"):
                     lim = 3
                 for k, prog in enumerate(interleavings(p[0], q[0], lim)):
